@@ -229,6 +229,9 @@ def gen_term(rng, fl, kind, max_deg):
         t = ["*", t, f] if rng.random() < 0.7 else ["*", f, t]
     if rng.random() < 0.8:
         c = gen_coef(rng, kind)
+        if rng.random() < 0.12:
+            # a coefficient written as arithmetic on two numerals: (- 1 3), (* 2 3), (- 0 3), (+ 0.5 2)
+            c = [rng.choice(["-", "+", "*"]), rng.choice(["0", "1", "2", c]), rng.choice(["3", "1", c])]
         t = ["*", t, c] if rng.random() < 0.5 else ["*", c, t]
     return t
 
